@@ -236,6 +236,11 @@ func GenProject(t *rapid.T, pf Profile) *Project {
 		c.Pkg = rapid.SampledFrom(pf.CtrlPackages).Draw(t, "ctrlPkg")
 		pkgUsed[c.Pkg] = true
 		c.File = fmt.Sprintf("%s.go", strings.ToLower(c.Name))
+		if ci > 0 && !pf.NoLayoutNoise && rapid.IntRange(0, 3).Draw(t, "shareFile") == 0 {
+			// two controllers declared in one source file
+			prev := p.Controllers[ci-1]
+			c.Pkg, c.File = prev.Pkg, prev.File
+		}
 		if rapid.IntRange(0, 5).Draw(t, "hasTag") > 0 {
 			tag := rapid.SampledFrom([]string{"Users", "Items API", "admin-ops", "Misc_1", "T"}).Draw(t, "tag") + fmt.Sprint(ci)
 			c.Tag = &tag
